@@ -82,6 +82,10 @@ class JsGen:
             v = self.var()
             return self.pick(["(%s++)", "(++%s)", "(%s--)", "(--%s)"]) % v
         if k < 54:
+            if r() % 4 == 0:
+                # sign chains and signs in front of updates, written with the spaces that keep the tokens apart
+                v = self.var()
+                return "(%s)" % self.pick(["- -%s", "+ +%s", "- +%s", "- --%s", "+ ++%s", "- - -%s", "%s - -%s" % (v, "%s"), "%s + +%s" % (v, "%s")]) % v
             return "(%s%s)" % (self.pick(["!", "-", "+", "~", "typeof ", "void "]), self.expr(d - 1))
         if k < 62 and self.funcs:
             name, ar = self.pick(self.funcs)
@@ -230,7 +234,8 @@ class JsGen:
             for _ in range(1 + r() % 3):
                 cases.append("case %s: %s %s" % (self.lit(), self.stmt(d - 1), "break;" if r() % 2 else ""))
             if r() % 2:
-                cases.append("default: %s" % self.stmt(d - 1))
+                # anywhere among the cases: clause order matters with fall-through
+                cases.insert(r() % (len(cases) + 1), "default: %s %s" % (self.stmt(d - 1), "break;" if r() % 2 else ""))
             return "switch (%s) { %s }" % (self.expr(1), " ".join(cases))
         if k < 74 and self.loop_depth > 0:
             if self.labels and r() % 2:
